@@ -140,7 +140,9 @@ namespace DFS
 
   bool CatalogEntry::has_name(const ParsedFileName& wanted) const
   {
-    if (wanted.dir != directory())
+    // Directory characters, like names, are compared without regard to case.
+    if (tolower(static_cast<unsigned char>(wanted.dir))
+	!= tolower(static_cast<unsigned char>(directory())))
       {
 #if VERBOSE_FOR_TESTS
 	std::cerr << "No match; " << wanted.dir << " != " << directory() << "\n";
